@@ -33,7 +33,7 @@ var Props = []*h.Prop{
 		Stub:        stubCap,
 		Assumptions: []string{"which of two overlapping patterns wins is not demanded, only that it is always the same one; that clause depends on Go's map iteration order and is evaluated by 16 repetitions inside one run (replay retries it three times)", "interfaces are taken from the simulated host link list"}},
 	{ID: "C29", Run: c29, Bubble: true,
-		Rule:        "one evaluation = one capture scenario (2-4 packet batches of three conversations at simulated instants before and after rotations) with a generated live query (attribute subsets, condition trees, direction filters) after every batch, bracketed by two direct snapshots of the in-memory flows, compared with the reference aggregation over stored records plus in-memory flows; then the same scenario is run again without live queries and the final database contents are compared; non-trivial = at least one live query executed; distinct = distinct event-log hash including scheduling decisions",
+		Rule:        "one evaluation = one capture scenario (one captured interface, or two to three plus - in half of those runs - an interface that exists only in the database; 2-4 packet batches of three conversations at simulated instants before and after rotations) with a generated live query (attribute subsets, interface label and interface subsets, condition trees, direction filters) after every batch, bracketed by two direct snapshots of the in-memory flows, compared with the reference aggregation over stored records plus in-memory flows; then the same scenario is run again without live queries and the final database contents are compared; non-trivial = at least one live query executed; distinct = distinct event-log hash including scheduling decisions",
 		Real:        append([]string{"engine.QueryRunner with WithLiveData (runLiveQuery, QueryFilter, aggregation of live maps)"}, realCap...),
 		Stub:        stubCap,
 		Assumptions: []string{"live queries are generated without the time label (in-memory flows have no block timestamp yet)", "a live query that overlaps a rotation is skipped (its linearisation point is not observable)", "conditions with address literals of one family are excluded (C08 finding)"}},
